@@ -413,6 +413,7 @@ func checkC01(c *Ctx) {
 	exprS4(emitPrint, map[bool]int{false: 2, true: 3}[c.Thorough()])
 	exprS5(emitPrint)
 	exprS6(emitPrint)
+	c01DataDriven(c)
 	// S3: every syntactic position x lexer-stressing shapes
 	for _, p := range pos {
 		for _, e := range lexShapes() {
@@ -523,4 +524,122 @@ func runExprCase(c *Ctx, ec exprCase, globals data.Map, want string, st status) 
 			c.Violate("an expression without a value never produces text", "mismatch", "errtext:"+sig, ec, "error after writing exactly "+want, "error after writing "+o.out)
 		}
 	}
+}
+
+// c01DataDriven (S7): every operator / access / function applied to template parameters, for every
+// ordered pair of data values (the operands come from the data map, not from literals): one
+// compilation per form, one render per binding.
+func s7Values() []data.Value {
+	return []data.Value{nil, data.Null{}, data.Bool(true), data.Bool(false), data.Int(0), data.Int(1), data.Int(3), data.Int(-2), data.Int(9007199254740991),
+		data.Float(0.5), data.Float(2), data.Float(-1.25), data.String(""), data.String("a"), data.String("7"), data.String("x<&\"'>"), data.String("é"), data.String("k"),
+		data.List{}, data.List{data.Int(1), data.String("b")}, data.List{data.List{data.Int(5)}, data.Null{}}, data.Map{}, data.Map{"k": data.String("v")},
+		data.Map{"k": data.Map{"k": data.Int(4)}, "n": data.Null{}, "0": data.String("zero")}}
+}
+
+func s7Forms() []*E {
+	p, q := vr("p"), vr("q")
+	var forms []*E
+	for _, op := range binOps {
+		forms = append(forms, bin(op, p, q))
+	}
+	forms = append(forms, un("-", p), un("not", p), tern(p, q, lit("'n'", data.String("n"))), bin("?:", p, lit("'d'", data.String("d"))),
+		vr("p", Acc{Kind: "dot", Key: "k"}), vr("p", Acc{Kind: "qdot", Key: "k"}), vr("p", Acc{Kind: "idx", Idx: 0}), vr("p", Acc{Kind: "qidx", Idx: 1}),
+		vr("p", Acc{Kind: "br", E: q}), vr("p", Acc{Kind: "qbr", E: q}), vr("p", Acc{Kind: "dot", Key: "k"}, Acc{Kind: "dot", Key: "k"}), vr("p", Acc{Kind: "qdot", Key: "k"}, Acc{Kind: "dot", Key: "k"}),
+		vr("p", Acc{Kind: "idx", Idx: 0}, Acc{Kind: "idx", Idx: 0}),
+		call("length", p), call("keys", p), call("isNonnull", p), call("round", p), call("round", p, q), call("floor", p), call("ceiling", p), call("min", p, q), call("max", p, q),
+		call("strContains", p, q), call("augmentMap", p, q), bin("+", bin("+", p, lit("'|'", data.String("|"))), q), bin("==", bin("+", p, q), bin("+", q, p)),
+		tern(bin("and", p, q), lit("1", data.Int(1)), lit("2", data.Int(2))), tern(bin("or", p, q), lit("1", data.Int(1)), lit("2", data.Int(2))))
+	return forms
+}
+
+func s7Bindings() []data.Map {
+	vals := s7Values()
+	var ds []data.Map
+	for _, a := range vals {
+		for _, b := range vals {
+			d := data.Map{}
+			if a != nil {
+				d["p"] = a
+			}
+			if b != nil {
+				d["q"] = b
+			}
+			ds = append(ds, d)
+		}
+	}
+	return ds
+}
+
+func c01DataDriven(c *Ctx) {
+	forms := s7Forms()
+	for fi, f := range forms {
+		if !c.Mine() {
+			continue
+		}
+		src := "{namespace v}\n/**\n * @param? p\n * @param? q\n */\n{template .m}\nA{" + f.String() + "}B{if false}{$p}{$q}{/if}\n{/template}\n"
+		ds := s7Bindings()
+		var res bundleResult
+		res.v = vrt.Run(vrt.Options{Fuel: 100000000}, func() {
+			tofu, err := soy.NewBundle().AddTemplateString("t.soy", src).CompileToTofu()
+			if err != nil {
+				res.compileErr = err.Error()
+				return
+			}
+			for _, d := range ds {
+				var buf bytes.Buffer
+				err := tofu.NewRenderer("v.m").Inject(exprIJ).Execute(&buf, d)
+				res.outs = append(res.outs, buf.String())
+				if err != nil {
+					res.errs = append(res.errs, "error")
+				} else {
+					res.errs = append(res.errs, "")
+				}
+			}
+		})
+		ec := exprCase{Stratum: "S7", Position: "print", Expr: f.String(), Source: src}
+		key := "S7\x00" + src
+		if res.v.Panic != nil || res.v.Exhausted || res.compileErr != "" {
+			c.Observe(key, "bad")
+			c.Violate("every valid expression is accepted and evaluates", "mismatch", "S7-bad:"+f.String(), ec, "compiles and renders", fmt.Sprint(res.v.Panic, res.v.Exhausted, res.compileErr))
+			continue
+		}
+		obs := strings.Builder{}
+		for i, d := range ds {
+			env := &Env{Vars: d, IJ: exprIJ}
+			want, st := env.printed(f)
+			got := normEntities(res.outs[i])
+			if st == stUnspec {
+				obs.WriteString("u|")
+				continue
+			}
+			obs.WriteString(got + fmt.Sprint(res.errs[i] != "") + "|")
+			c.Count("s7_specified_bindings", 1)
+			ec.Sketch = f.String() + " with p=" + kindOf(orUndef(d["p"])) + " q=" + kindOf(orUndef(d["q"]))
+			sig := "S7:" + ec.Sketch
+			ec.Globals = []string{dataKey(d)}
+			switch {
+			case st == stOK && res.errs[i] != "":
+				c.Violate("renders exactly the text the language defines", "mismatch", "err:"+sig, ec, "A"+want+"B", "render error (wrote "+got+")")
+			case st == stOK && got != "A"+want+"B":
+				c.Violate("renders exactly the text the language defines", "mismatch", "value:"+sig, ec, "A"+want+"B", got)
+			case st == stError && res.errs[i] == "":
+				c.Violate("an expression without a value makes the render return an error", "mismatch", "noerr:"+sig, ec, "render error", "no error; wrote "+got)
+			case st == stError && got != "A":
+				c.Violate("an expression without a value never produces text", "mismatch", "errtext:"+sig, ec, "A", got)
+			}
+		}
+		c.Observe(key, obs.String())
+		c.Nontrivial()
+		c.Count("s7_renders", int64(len(ds)))
+		if fi%9 == 0 {
+			c.Sample(map[string]any{"stratum": "S7", "expr": f.String(), "bindings": len(ds)})
+		}
+	}
+}
+
+func orUndef(v data.Value) data.Value {
+	if v == nil {
+		return data.Undefined{}
+	}
+	return v
 }
